@@ -25,7 +25,9 @@ fn strategy(tier: Tier) -> BoxedStrategy<BaseCase> {
     let mut p = GenParams::ledger();
     p.max_rows = tier.pick(14, 30);
     p.opening_all_secs = true;
-    (ledger_strategy(p, 1), any::<u16>(), any::<bool>()).prop_map(|(ledger, x, costs)| {
+    let mut mixed = p.clone();
+    mixed.secs = vec!["Brk.b", "xeqt", "FOO"]; // symbols that are not all upper case
+    (prop_oneof![3 => ledger_strategy(p, 1), 1 => ledger_strategy(mixed, 1)], any::<u16>(), any::<bool>()).prop_map(|(ledger, x, costs)| {
         // opening positions of symbols that do not occur in the input must change nothing
         let extra = match x % 4 { 0 => vec![], 1 => vec![("ZZZ".to_string(), "5".to_string(), "100".to_string())], 2 => vec![("ZZZ".into(), "0.25".into(), "0".into()), ("QQQ.UN".into(), "1000".into(), "12345.67".into())], _ => vec![("foo".into(), "3".into(), "30".into())] };
         BaseCase { ledger, extra_opening: extra, costs }
@@ -55,7 +57,7 @@ fn check(c: &BaseCase, obs: &mut Obs) -> Verdict {
     let mut rows2 = pre.clone();
     rows2.extend(l.rows.iter().cloned());
     let files2 = vec![("opening.csv".to_string(), crate::gen::to_csv(&pre)), files[0].clone()];
-    let o2 = RunOpts { symbol_base: vec![], usd_years: o1.usd_years, date_fmt: None, stale_cache_until: None };
+    let o2 = RunOpts { symbol_base: vec![], usd_years: o1.usd_years, date_fmt: None, stale_cache_until: None, forced_over_wrong_cache: false };
     let r1 = match run_render(&files, &o1, true, c.costs) { Ok(r) => r, Err(RunErr::Panic(p)) => return classify_panic(&p, csv), Err(RunErr::Run(e)) => return Verdict::Skip(format!("run-error:{}", e.split_whitespace().take(3).collect::<Vec<_>>().join("_"))), Err(RunErr::BadInit(e)) => return Verdict::Fail(format!("well-formed opening positions rejected: {e} ({:?})", o1.symbol_base)) };
     let r2 = match run_render(&files2, &o2, true, c.costs) { Ok(r) => r, Err(RunErr::Panic(p)) => return classify_panic(&p, csv), Err(RunErr::Run(e)) => return Verdict::Fail(format!("run with prepended purchases fails ({e}) while the -b run succeeds\n{csv}")), Err(RunErr::BadInit(e)) => return Verdict::Fail(e) };
     let (s1, mut s2) = (Snap::of(&r1.res).normalized(), Snap::of(&r2.res).normalized());
